@@ -132,6 +132,12 @@ func (e *Enc) loopEnv(fr *Frame, hb *ssa.BasicBlock, phiMap map[*ssa.Phi]Operand
 	env.resolve = func(name string) (SV, bool) {
 		return e.varAt(fr, name, hb, pos, phiMap, heap)
 	}
+	// entry values of the parameters: <name>_0 (parameters are mutable variables)
+	for _, p := range fr.fn.Params {
+		if op, ok := fr.ops[p]; ok {
+			env.names[p.Name()+"_0"] = e.opSV(op, p.Type())
+		}
+	}
 	return env
 }
 
@@ -564,10 +570,11 @@ func (e *Enc) runRoot() {
 					env.names["result"] = sv
 				}
 			}
+			var earlier []string
 			for k, cl := range c.Ensures {
 				f := e.evalBool(cl.Expr, env)
 				o := &Oblig{Kind: "post", Base: fmt.Sprintf("post#%d", k+1), Guard: r.guard, Formula: f, Pos: r.pos,
-					Text: "ensures " + cl.Text, Props: cl.Tags}
+					Text: "ensures " + cl.Text, Props: cl.Tags, Deps: append([]string{}, earlier...)}
 				allScalar := true
 				for i := 0; i < res.Len(); i++ {
 					if !scalarType(res.At(i).Type(), 0) || r.vals[i].v.T == "" {
@@ -581,7 +588,9 @@ func (e *Enc) runRoot() {
 				}
 				e.oblige(o)
 				o.Prefix = len(e.body)
-				// later clauses at this return may use this one (it is proved on its own)
+				earlier = append(earlier, o.ID)
+				// later clauses at this return may use this one (it is proved on its own;
+				// a later clause counts as discharged only if every earlier one is: Deps)
 				e.assume(r.guard, f)
 			}
 			if c.HasMod {
@@ -630,7 +639,7 @@ func (e *Enc) frameFormula(ce *callEffect, key, now, was string) string {
 	}
 	e.qn++
 	rv := fmt.Sprintf("r%d!f", e.qn)
-	cond := []string{fmt.Sprintf("(<= %s %s)", rv, e.alloc0)}
+	cond := []string{e.allocatedCond(key, rv, e.alloc0)}
 	if arrayIndexSort(e.keySort[key]) == "Int" {
 		for _, x := range refs {
 			cond = append(cond, fmt.Sprintf("(distinct %s %s)", rv, x))
